@@ -374,7 +374,8 @@ func c17Case(r *obs.Run, i int) {
 	default: // invalid definitions
 		kind := rng.Intn(6)
 		// non-ASCII runes incl. ones whose low byte is below 0x80 (U+0100, U+0141, U+4E16, U+1D11E) and invalid UTF-8
-		junk := []string{"\xff", "é", "\xc3", "λ", "\x80", "日", "\xed\xa0\x80", "ÿ", "Ā", "Ł", "世", "𝄞", "ŉa", "\u0100"}[rng.Intn(14)]
+		// and the runes that case folding maps onto ASCII letters (U+212A Kelvin -> k, U+0130 -> i, U+017F -> S, U+0131 -> I)
+		junk := []string{"\xff", "é", "\xc3", "λ", "\x80", "日", "\xed\xa0\x80", "ÿ", "Ā", "Ł", "世", "𝄞", "ŉa", "\u0100", "\u212a", "\u0130", "\u017f", "\u0131", "\u212b"}[rng.Intn(19)]
 		pos := rng.Intn(len(def) + 1)
 		switch kind {
 		case 0: // non-ASCII letters in an alphabet
